@@ -40,11 +40,11 @@ CLAIMED = {
         "are still to be added, so the resolve half currently rests on the correspondence plus the implementation oracle (check_consistency, no Reference "
         "reachable, every reference replaced by the node it names, documented exception for unknown / duplicate names).",
    note=TB + "Modelled: coq/Graph.v, coq/GraphOps.v. Front-end graphs are checked by their own streams as they are added.", ref="5/C14"),
- "C15": dict(cat="other", tech="model-implementation correspondence of optimize() + sample-set oracle; Coq semantic-preservation theorem in progress",
-   text="Executable model of Decision.optimize (chain detection, splice, re-pointing of incoming records) tied to the implementation on graphs with chains of "
-        "do-nothing decisions (full node table after optimize, then generated paths); oracle compares the sets of samples (side-effecting nodes applied, invalid "
-        "leaf applied) over all complete executions up to a bound before/after, check_consistency and node count. The Coq theorem C15_sem (simulation both ways) "
-        "is not closed yet, hence the level is not claimed as proof.",
+ "C15": dict(cat="proof", tech="Coq simulation proof (both directions) for optimize() + model-implementation correspondence of the node table",
+   text="C15_sem / C15_sem_everywhere: for every graph and every complete execution before optimize() there is one after it applying the same side-effecting nodes "
+        "(everything but NoOpDecisions) in the same order, and conversely, for every node, any chain length, any sharing and cycles, unbounded execution depth; "
+        "C15_same_invalid_leaves. Consistency of the links after optimize() and the node count are decided by the correspondence (full node table incl. incoming records) "
+        "and the oracle (check_consistency, items count), not by a theorem yet.",
    note=TB + "Modelled: coq/GraphOps.v.", ref="5/C15"),
  "C09": dict(cat="other", tech="model-implementation correspondence from the regex AST + re.fullmatch oracle; Coq language-membership theorem in progress",
    text="Executable Coq model of regex/parse.py (tree converters, _repeat, optimize, wrapping) from the AST, with the specification relation matches; tied to the "
